@@ -258,7 +258,7 @@ CircuitExec::StageRun CircuitExec::runStage(Circuit &c, int opIndex, const Op &o
   bool haveLB = false, haveUB = false, haveFirstDet = false;
   std::vector<int> lbX, lbY, ubX, ubY;
   Snapshot firstDet;
-  long long prevHpwl = 0;
+  long long prevHpwl = 0, prevFrozen = 0;
   bool prevHpwlValid = false;
   bool polarisedChangedOrient = false;
   bool observeOnly = true;
@@ -369,13 +369,23 @@ CircuitExec::StageRun CircuitExec::runStage(Circuit &c, int opIndex, const Op &o
             }
           }
         }
+        // wirelength with the pin offsets frozen at the orientation the cells had
+        // right after legalization: what the incremental model optimises
+        long long frozen = hp;
+        if (polarisedChangedOrient) {
+          Snapshot fz = s;
+          fz.orient = firstDet.orient;
+          frozen = refHpwl(fz);
+        }
         if (prevHpwlValid && dom.c01 && !r.agentMutated) evald("C05");
         if (prevHpwlValid && hp > prevHpwl && dom.c01 && !r.agentMutated) {
-          verdict("C05", polarisedChangedOrient ? "hpwl-increase-with-orientation-change" : "hpwl-increase",
+          bool onlyOffsets = polarisedChangedOrient && frozen <= prevFrozen;
+          verdict("C05", onlyOffsets ? "hpwl-increase-with-orientation-change" : "hpwl-increase",
                   tag + " cb" + std::to_string(k) + ": HPWL rose " + std::to_string(prevHpwl) + " -> " + std::to_string(hp) +
-                  (polarisedChangedOrient ? " (a polarised cell changed orientation since legalization)" : ""), opIndex);
+                  (onlyOffsets ? " (a polarised cell changed row and orientation; with the pin offsets frozen at the legalized orientation the length went " + std::to_string(prevFrozen) + " -> " + std::to_string(frozen) + ")" : ""), opIndex);
         }
         prevHpwl = hp;
+        prevFrozen = frozen;
         prevHpwlValid = true;
       }
     }
@@ -647,10 +657,15 @@ CircuitExec::StageRun CircuitExec::runStage(Circuit &c, int opIndex, const Op &o
       bool polChanged = false;
       for (int i = 0; i < r.post.n(); ++i)
         if (!r.post.fixed[i] && r.post.pol[i] != P_ANY && r.post.orient[i] != legal.orient[i]) polChanged = true;
-      if (h1 > h0)
-        verdict("C05", polChanged ? "hpwl-increase-with-orientation-change" : "hpwl-increase",
+      if (h1 > h0) {
+        Snapshot fz = r.post;
+        fz.orient = legal.orient;
+        long long f1 = refHpwl(fz);
+        bool onlyOffsets = polChanged && f1 <= h0;
+        verdict("C05", onlyOffsets ? "hpwl-increase-with-orientation-change" : "hpwl-increase",
                 tag + ": HPWL after detailed placement " + std::to_string(h1) + " exceeds that of the legalized placement " + std::to_string(h0) +
-                (polChanged ? " (a polarised cell changed orientation since legalization)" : ""), opIndex);
+                (onlyOffsets ? " (a polarised cell changed row and orientation; with the pin offsets frozen at the legalized orientation the length is " + std::to_string(f1) + ")" : ""), opIndex);
+      }
       if (h1 < h0) stat("probe_detailed_improved_hpwl");
       if (polChanged) stat("probe_polarised_cell_changed_row");
       if (fsPre.rowHeight > 0) {
